@@ -20,6 +20,7 @@ package cert
 //@   ensures @C01,C02 forall a in [0, 8) :: has(sigAlgOids, a) && sigAlgOids[a] != nil && oidv(sigAlgOids[a]) == specSigOid(a)
 //@   ensures @C05 forall a in [0, 14) :: has(keyTypes, a) && keyTypes[a] == (if a <= 3 then 0 else 1)
 //@   ensures @C02 snMax != nil && BigVal(snMax) == pow2(159)
+//@   ensures @C07 oidAiaOcsp != nil && len(oidAiaOcsp) == 9 && oidv(oidAiaOcsp) == #oidAdOcsp
 //@   ensures @C06,C07 len(oids) == 13 && (forall i in [0, 13) :: oids[i] != nil && oidv(oids[i]) == specExtOid(i))
 //@   ensures @C06,C07 oidExtensionSubjectKeyId != nil && oidv(oidExtensionSubjectKeyId) == specExtOid(0) && oidExtensionKeyUsage != nil && oidv(oidExtensionKeyUsage) == specExtOid(1) && oidExtensionExtendedKeyUsage != nil && oidv(oidExtensionExtendedKeyUsage) == specExtOid(2) && oidExtensionAuthorityKeyId != nil && oidv(oidExtensionAuthorityKeyId) == specExtOid(3) && oidExtensionBasicConstraints != nil && oidv(oidExtensionBasicConstraints) == specExtOid(4) && oidExtensionSubjectAltName != nil && oidv(oidExtensionSubjectAltName) == specExtOid(5) && oidExtensionCertificatePolicies != nil && oidv(oidExtensionCertificatePolicies) == specExtOid(6) && oidExtensionAuthorityInfoAccess != nil && oidv(oidExtensionAuthorityInfoAccess) == specExtOid(9) && oidExtensionAdmission != nil && oidv(oidExtensionAdmission) == specExtOid(11) && oidExtensionOcspNoCheck != nil && oidv(oidExtensionOcspNoCheck) == specExtOid(12)
 
@@ -217,3 +218,84 @@ package cert
 //@   uses ext.smt2
 //@   given ocspNoCheck.Critical == false && ocspNoCheckCritical.Critical == true && oidv(ocspNoCheck.Id) == specExtOid(12) && oidv(ocspNoCheckCritical.Id) == specExtOid(12)
 //@   ensures @C06 res.Critical == critical && oidv(res.Id) == specExtOid(12)
+
+// Key identifiers (C01, C07): SHA-1 over the subject's public key bits / the issuer's public key bits
+//@ func NewSubjectKeyIdentifier returns (res, err)
+//@   props C01 C06 C07
+//@   uses ext.smt2
+//@   given EXTOIDS
+//@   requires ctx != nil ==> ctx.TbsCertificate != nil
+//@   ensures @C06 err == nil ==> res != nil && res.Critical == critical && oidv(res.Id) == specExtOid(0)
+//@   ensures @C01,C07 err == nil ==> bytes(res.Value) == der(deepBytes(digest(3, bytes(old(ctx.TbsCertificate.PublicKey.PublicKey.Bytes)))))
+//@   ensures err != nil ==> res == nil
+
+//@ func NewAuthorityKeyIdentifierHash returns (res, err)
+//@   props C01 C06 C07
+//@   uses ext.smt2
+//@   given EXTOIDS
+//@   requires ctx != nil
+//@   ensures @C06 err == nil ==> res != nil && res.Critical == critical && oidv(res.Id) == specExtOid(3)
+//@   ensures @C01,C07 err == nil ==> bytes(res.Value) == der(akiDeep(digest(3, bytes(old(ctx.Issuer.PublicKeyRaw)))))
+//@   ensures err != nil ==> res == nil
+
+//@ func NewAuthorityInfoAccess returns (res, err)
+//@   props C06 C07
+//@   uses ext.smt2
+//@   given EXTOIDS
+//@   given oidAiaOcsp != nil && len(oidAiaOcsp) == 9 && oidv(oidAiaOcsp) == #oidAdOcsp
+//@   requires forall k in [0, len(accessInfo)) :: accessInfo[k].AccessLocation != nil
+//@   ensures @C06 err == nil ==> res != nil && res.Critical == critical && oidv(res.Id) == specExtOid(9)
+//@   ensures @C07 err == nil ==> bytes(res.Value) == tlv(0, 16, true, catAia(old(seq(accessInfo)), 0, #bempty))
+//@   ensures err != nil ==> res == nil
+//@   loop 1
+//@     invariant 0 <= idx && idx <= len(accessInfo)
+//@     invariant bbAccessInfo != nil && bbExtension != nil && bbAccessInfo != bbExtension
+//@     invariant @C07 catAia(old(seq(accessInfo)), idx, BufContent(bbExtension)) == catAia(old(seq(accessInfo)), 0, #bempty)
+
+// ---- admission (C16): CommonPKI AdmissionSyntax, composed TLV by TLV; the struct tags handed to asn1 are part of the value spec
+//@ func makeExplicit returns (r)
+//@   props C16
+//@   uses ext.smt2
+//@   ensures @C16 bytes(r) == tlv(2, 0, true, bytes(b))
+
+//@ func (ProfessionInfo).marshal returns (res, err)
+//@   props C16
+//@   uses ext.smt2
+//@   inline partialMarshallStruct
+//@   ensures @C16 err == nil ==> bytes(res) == tlv(0, 16, true, bcat(bcat(bcat(#bempty, bcat(#bempty, derField(deep(pi.NamingAuthority), "tag:0,explicit,optional"))), (if len(pi.ProfessionItems) > 0 then tlv(0, 16, true, catItems(old(seq(pi.ProfessionItems)), 0, #bempty)) else #bempty)), bcat(bcat(bcat(#bempty, derField(deep(pi.ProfessionOids), "omitempty,optional")), derField(deep(pi.RegistrationNumber), "printable,optional")), derField(deep(pi.AddProfessionInfo), "omitempty,optional"))))
+//@   ensures err != nil ==> res == nil
+//@   loop 1
+//@     invariant 0 <= idx && idx <= len(pi.ProfessionItems)
+//@     invariant @C16 catItems(old(seq(pi.ProfessionItems)), idx, BufContent(addr(bbItems))) == catItems(old(seq(pi.ProfessionItems)), 0, #bempty)
+//@     invariant @C16 BufContent(addr(bb)) == entry(BufContent(addr(bb))) && addr(bb) != addr(bbItems)
+//@   abstracts err == nil ==> bytes(res) == piDer(pi)
+
+//@ func (Admissions).marshal returns (res, err)
+//@   props C16
+//@   uses ext.smt2
+//@   inline partialMarshallStruct
+//@   ensures @C16 err == nil ==> bytes(res) == tlv(0, 16, true, bcat(bcat((if ax.AdmissionAuthority != nil then tlv(2, 0, true, gnDer(ax.AdmissionAuthority)) else #bempty), bcat(#bempty, derField(deep(ax.NamingAuthority), "tag:1,optional,explicit"))), (if len(ax.ProfessionInfos) > 0 then tlv(0, 16, true, catPi(old(seq(ax.ProfessionInfos)), 0, #bempty)) else #bempty)))
+//@   ensures err != nil ==> res == nil
+//@   abstracts err == nil ==> bytes(res) == axDer(ax)
+//@   loop 1
+//@     invariant 0 <= idx && idx <= len(ax.ProfessionInfos)
+//@     invariant @C16 catPi(old(seq(ax.ProfessionInfos)), idx, BufContent(addr(pibb))) == catPi(old(seq(ax.ProfessionInfos)), 0, #bempty)
+//@     invariant @C16 BufContent(addr(bb)) == entry(BufContent(addr(bb))) && addr(bb) != addr(pibb)
+
+//@ func (Admission).marshal returns (res, err)
+//@   props C16
+//@   uses ext.smt2
+//@   ensures @C16 err == nil ==> bytes(res) == tlv(0, 16, true, bcat((if ad.AdmissionAuthority != nil then gnDer(ad.AdmissionAuthority) else #bempty), tlv(0, 16, true, catAx(old(seq(ad.Contents)), 0, #bempty))))
+//@   ensures err != nil ==> res == nil
+//@   loop 1
+//@     invariant 0 <= idx && idx <= len(ad.Contents)
+//@     invariant @C16 catAx(old(seq(ad.Contents)), idx, BufContent(addr(adxbb))) == catAx(old(seq(ad.Contents)), 0, #bempty)
+//@     invariant @C16 BufContent(addr(bb)) == entry(BufContent(addr(bb))) && addr(bb) != addr(adxbb)
+
+//@ func NewAdmission returns (res, err)
+//@   props C06 C16
+//@   uses ext.smt2
+//@   given EXTOIDS
+//@   ensures @C06 err == nil ==> res != nil && res.Critical == critical && oidv(res.Id) == specExtOid(11)
+//@   ensures @C16 err == nil ==> bytes(res.Value) == tlv(0, 16, true, bcat((if admission.AdmissionAuthority != nil then gnDer(admission.AdmissionAuthority) else #bempty), tlv(0, 16, true, catAx(old(seq(admission.Contents)), 0, #bempty))))
+//@   ensures err != nil ==> res == nil
